@@ -559,6 +559,14 @@ func (e *Engine) stdStub(full string, c *ast.CallExpr, recv *Value, args []Value
 		}
 		e.assume(st.pc, and(sx("<=", "0", res[0].T), sx("<=", res[0].T, ln), implies(sx(">", ln, "0"), sx(">", res[0].T, "0")), sx("<=", ln, sx("*", "4", res[0].T))))
 		return res, true
+	case "errors.Is":
+		note(full + ": an error matches a target it is equal to (the rest of the chain walk is an uninterpreted function)")
+		res := e.pureUF(full, sig, recv, args, st)
+		if len(args) == 2 && e.bound == 0 {
+			e.assume(st.pc, implies(and(e.equal(args[0], args[1], c.Pos()), not(e.isNil(args[0]))), res[0].T))
+			e.assume(st.pc, implies(e.isNil(args[0]), not(res[0].T)))
+		}
+		return res, true
 	case "errors.New", "fmt.Errorf":
 		note(full + ": result is non-nil")
 		if e.bound > 0 {
